@@ -458,6 +458,11 @@ class Series:
         ks = {_key(v) for v in values}
         return self._new([_key(v) in ks for v in self._v], "bool")
 
+    def between(self, left, right, inclusive="both"):
+        lo = (lambda v: v >= left) if inclusive in ("both", "left") else (lambda v: v > left)
+        hi = (lambda v: v <= right) if inclusive in ("both", "right") else (lambda v: v < right)
+        return self._new([False if isna(v) else bool(lo(v) and hi(v)) for v in self._v], "bool")
+
     def where(self, cond, other=NAN, **kw):
         _check_kwargs("where", kw, ())
         c = _align(cond, self.index) if isinstance(cond, Series) else list(cond)
